@@ -14,6 +14,8 @@ mod types;
 mod bitmap;
 mod volatile;
 mod guest;
+mod addr;
+mod endian;
 
 use std::io::{BufRead, BufWriter, Write};
 
@@ -32,6 +34,8 @@ fn main() {
         "bitmap" => Box::new(bitmap::BitmapExec::default()),
         "volatile" => Box::new(volatile::VolExec::default()),
         "guest" => Box::new(guest::GuestExec::default()),
+        "addr" => Box::new(addr::AddrExec::default()),
+        "endian" => Box::new(endian::EndianExec::default()),
         _ => {
             eprintln!("unknown module {module}");
             std::process::exit(2);
